@@ -56,6 +56,11 @@ func (f *TimeField) GenReadFrom() (string, error) {
 	g.printlnf("{")
 	g.printlnf("timeInt := uint64(0)")
 	g.printlne(GenNaturalNumberDecode("timeInt"))
+	// A number of milliseconds that no time.Duration can hold is the longest
+	// duration there is, not a negative one
+	g.printlnf("if timeInt > uint64(1<<63-1)/uint64(time.Millisecond) {")
+	g.printlnf("timeInt = uint64(1<<63-1) / uint64(time.Millisecond)")
+	g.printlnf("}")
 	if f.opt {
 		g.printlnf("tempVal := time.Duration(timeInt) * time.Millisecond")
 		g.printlnf("value.%s = &tempVal", f.name)
